@@ -57,6 +57,15 @@ func init() {
 		"internal/bytealg.IndexByteString":        intrIndexByteStr,
 		"internal/bytealg.IndexByte":              intrIndexByteBytes,
 		"(*sync.Once).Do":                         intrOnceDo,
+		"(*sync.WaitGroup).Add":                   intrWGAdd,
+		"(*sync.WaitGroup).Done":                  intrWGDone,
+		"(*sync.WaitGroup).Wait":                  intrWGWait,
+		"(*sync.Mutex).Lock":                      intrMuLock,
+		"(*sync.Mutex).Unlock":                    intrMuUnlock,
+		"(*sync.RWMutex).Lock":                    intrMuLock,
+		"(*sync.RWMutex).Unlock":                  intrMuUnlock,
+		"(*sync.RWMutex).RLock":                   intrMuLock,
+		"(*sync.RWMutex).RUnlock":                 intrMuUnlock,
 		"(*sync/atomic.Value).Store":              intrAtomicValueStore,
 		"(*sync/atomic.Value).Load":               intrAtomicValueLoad,
 		"time.Unix":                               intrTimeUnix,
@@ -952,6 +961,42 @@ func intrOnceDo(e *Exec, caller *Frame, _ *ssa.Function, args []Value) Value {
 		e.rtPanic("nil", "nil *sync.Once")
 	}
 	e.onceDo(p.cell, args[1], caller)
+	return nil
+}
+
+// sync.WaitGroup and sync.(RW)Mutex: counters / locks keyed by the variable's address; Wait and Lock
+// are blocking visible operations of the scheduler (RLock is treated as an exclusive lock: fewer
+// interleavings, never a spurious one).
+func syncCell(e *Exec, v Value, what string) *Value {
+	p, ok := v.(PtrV)
+	if !ok || p.cell == nil {
+		e.rtPanic("nil", "nil "+what)
+	}
+	return p.cell
+}
+
+func intrWGAdd(e *Exec, _ *Frame, _ *ssa.Function, args []Value) Value {
+	e.wgAdd(syncCell(e, args[0], "*sync.WaitGroup"), e.ConcInt(args[1].(*Term)))
+	return nil
+}
+
+func intrWGDone(e *Exec, _ *Frame, _ *ssa.Function, args []Value) Value {
+	e.wgAdd(syncCell(e, args[0], "*sync.WaitGroup"), -1)
+	return nil
+}
+
+func intrWGWait(e *Exec, _ *Frame, _ *ssa.Function, args []Value) Value {
+	e.wgWait(syncCell(e, args[0], "*sync.WaitGroup"))
+	return nil
+}
+
+func intrMuLock(e *Exec, _ *Frame, _ *ssa.Function, args []Value) Value {
+	e.muLock(syncCell(e, args[0], "*sync.Mutex"))
+	return nil
+}
+
+func intrMuUnlock(e *Exec, _ *Frame, _ *ssa.Function, args []Value) Value {
+	e.muUnlock(syncCell(e, args[0], "*sync.Mutex"))
 	return nil
 }
 
